@@ -139,10 +139,42 @@ def apalache_check(ctx, m):
     return res
 
 
+def tlaps_check(ctx, m):
+    """Deductive check with the TLA+ proof system: m = dict(engine="tlaps", module, name, deps=[...]).
+    The proof is about the specification only (for every array length), so a failure here is a defect of the
+    machinery (tool error), never a verdict about the code; TLC ties the proved module to the checked ones by refinement."""
+    d = os.path.join(ctx["dir"], "tlaps_" + m["name"])
+    os.makedirs(d, exist_ok=True)
+    for mod in [m["module"]] + m.get("deps", []):
+        shutil.copy(os.path.join(SPEC, mod + ".tla"), d)
+    out_path = os.path.join(ctx["dir"], "tlaps_%s.out" % m["name"])
+    t0 = time.time()
+    rc = -9
+    for attempt, stretch in enumerate(("2", "8")):
+        with open(out_path, "w") as fo:
+            try:
+                rc = subprocess.run(["tlapm", "--threads", "4", "--stretch", stretch, m["module"] + ".tla"], cwd=d, stdout=fo, stderr=subprocess.STDOUT,
+                                    timeout=m.get("timeout", 900)).returncode
+            except subprocess.TimeoutExpired:
+                rc = -9
+        text = open(out_path, errors="replace").read()
+        mt = re.search(r"All (\d+) obligations? proved", text)
+        if rc == 0 and mt:
+            break
+    secs = time.time() - t0
+    shutil.rmtree(d, ignore_errors=True)
+    if not (rc == 0 and mt):
+        raise ToolError("tlapm did not prove %s (rc=%s, see %s)" % (m["module"], rc, out_path))
+    return dict(name=m["name"], module=m["module"], engine="tlaps (deductive, unbounded array length)", generated=0, distinct=0, seconds=round(secs, 1),
+                constants=dict(obligations_proved=int(mt.group(1))), out=out_path, ok=True)
+
+
 def model_check(ctx, m):
     """m: dict(module, name, cfg{}, emit(bool), workers, expect('ok'|'violation'))"""
     if m.get("engine") == "apalache":
         return apalache_check(ctx, m)
+    if m.get("engine") == "tlaps":
+        return tlaps_check(ctx, m)
     tag = m["name"]
     cfg_path = os.path.join(ctx["dir"], tag + ".cfg")
     write_cfg(cfg_path, m["cfg"])
